@@ -4,12 +4,12 @@ From RlibV Require Import C03.Model C16.Model C16.Proofs C16.ModelFam.
 Import ListNotations.
 Open Scope Z_scope.
 
-Definition tight_ks : list Z := [0; 1; 2; 3; 4; 5; 6; 7; 8; 9; 10; 11; 12; 13].
-(** one evaluation by the VM when the proof term is checked (about one minute) *)
+Definition tight_ks : list Z := [0; 1; 2; 3; 4; 5; 6; 7; 8; 9; 10].
+(** one evaluation by the VM when the proof term is checked (a few seconds) *)
 Lemma tight_check : forallb tight_all tight_ks = true.
 Proof. vm_cast_no_check (@eq_refl bool true). Qed.
 
-Theorem height_tight_partial : forall k : Z, 0 <= k <= 13 ->
+Theorem height_tight_partial : forall k : Z, 0 <= k <= 10 ->
   let n := 2 ^ k in
   Forall (fun step => height (fam step n) <= 3 * Z.log2 (n + 1) + 12 /\ Heap (fam step n) /\ tsize isize (fam step n) = n)
          [step_append; step_front; step_rotate; step_deque; step_middle; step_mergebuild].
